@@ -122,10 +122,11 @@ CHECKS = {
                 "operator-table rows are resolved to finite opcode sets and compared with an IC10 signature oracle (opcode exists, "
                 "operand count, output register; a destination is cleared only with an opcode rewrite); bool/None/empty spellings "
                 "excluded; version-note bound; >= 16 significant digits at every float format, also for floats carried by register "
-                "objects; operand kinds at access sites; register numbers written into every collected register object.",
+                "objects; whole floats leave IC10Operand as int whatever their size; operand kinds at access sites; register numbers "
+                "written into every collected register object.",
         "design_ref": "DESIGN.md section 2 and 6, C09 (R09.a-f)",
         "note": _TRUST + "sa/isa.py is written from the game's reference and cross-checked against webapp/src/ic10.json on every run. "
-                "Not decided: exact float read-back, text produced by a user's @emit_code function. Three known findings ('~' -> 'neg').",
+                "Not decided: exact float read-back, text produced by a user's @emit_code function. Known findings: '~' -> 'neg', the constant None, a truth value through an inlined parameter.",
         "technique": _T + "emission-site extraction + finite value-set evaluation of opcode expressions (dict comprehensions, table "
                      "factories) against an ISA table." + _CANON,
     },
@@ -156,7 +157,8 @@ CHECKS = {
                 "as whole words over the whole source; constexpr functions emit no code; the evaluation-script template (parsed as Python; "
                 "the script variable found by data flow from exec / Popen) binds HASH to calc_hash last, identity decorators first, "
                 "library functions only inside 'class <module>:', json writer/reader partners by data flow from communicate(); the text "
-                "is not formatted again; the cache key is the script text; returned containers are not mutated.",
+                "is not formatted again, decoded without conversion hooks, run by an interpreter without -O; the cache key is the script "
+                "text; returned containers are not mutated.",
         "design_ref": "DESIGN.md section 2 and 6, C12 (R12.a-e)",
         "note": _TRUST + "Not decided: survival of arbitrary argument expressions through as_string().",
         "technique": _T + "dominance on the registration path, regex AST analysis, parsing the f-string script template as Python, data flow." + _CANON,
@@ -176,7 +178,8 @@ CHECKS = {
         "text": "Static rule check of mod_daemon: stdout redirected before any other import, saved handle used at one reply site, no other "
                 "route to fd 1, every child gets its own stdout; every path through process_input for a non-empty line passes exactly one "
                 "reply (also when the reply sits in a helper), the reply is base64(json) of an error object or compile_code's dictionary; "
-                "the loop leaves only on EOF (decided on the unstripped line) or EXIT; nothing outside the guarded region can raise.",
+                "process_input never calls itself; the loop leaves only on EOF (decided on the unstripped line) or EXIT, and the line compared "
+                "with EXIT is text, not bytes; nothing outside the guarded region can raise.",
         "design_ref": "DESIGN.md section 2 and 6, C14 (R14.a-c)",
         "note": _TRUST + "Not decided: behaviour under real pipes and signals; the C# client is read for context only.",
         "technique": _T + "ownership rule for fd 1 plus exactly-one-reply path analysis on the CFG of process_input (finally copies, "
